@@ -340,7 +340,9 @@ def run_table_case(t, case):
 
 # ---------------------------------------------------------------------------------------------
 # CMIF
-LEVELS = {"a": (4.0, 1.0, 0.5, 0.2), "b": (1.0, 0.6, 0.3, 0.05), "c": (9.0, 0.7, 0.65, 0.1)}
+LEVELS = {"a": (4.0, 1.0, 0.5, 0.2), "b": (1.0, 0.6, 0.3, 0.05), "c": (9.0, 0.7, 0.65, 0.1),
+          # rank-deficient line: a (near-)null singular value is still drawn at its own decibel level (-inf for exactly zero)
+          "d": (2.0, 0.5, 3e-17, 0.0)}
 
 
 def build_sv(nch, syms):
@@ -467,6 +469,11 @@ def cmif_cases(thorough):
                 for route in ("cmif", "fdd.cmif"):
                     for fl in (None, (0.4, 1.2)):
                         cases.append({"kind": "cmif", "route": route, "nch": nch, "syms": "".join(syms), "nSv": nSv, "freqlim": fl})
+        if nch >= 3:
+            for syms in ("d" * L, ("ad" * L)[:L], ("dcba" * L)[:L]):
+                for nSv in ["all"] + list(range(1, nch)):
+                    for route in ("cmif", "fdd.cmif"):
+                        cases.append({"kind": "cmif", "route": route, "nch": nch, "syms": syms, "nSv": nSv, "freqlim": None})
     return cases
 
 
